@@ -41,6 +41,19 @@ def _params(fn):
     return [p.arg for p in a.posonlyargs + a.args + a.kwonlyargs] + ([a.vararg.arg] if a.vararg else []) + ([a.kwarg.arg] if a.kwarg else [])
 
 
+def _defaults(fn):
+    """[(parameter, source text of its default)] of the wrapper"""
+    a = fn.args
+    pos = a.posonlyargs + a.args
+    out = []
+    for p, d in zip(pos[len(pos) - len(a.defaults):], a.defaults):
+        out.append((p.arg, ast.unparse(d)))
+    for p, d in zip(a.kwonlyargs, a.kw_defaults):
+        if d is not None:
+            out.append((p.arg, ast.unparse(d)))
+    return out
+
+
 def _inner_call(fn, target):
     calls = []
     for node in ast.walk(fn):
@@ -129,6 +142,7 @@ def table(tree, wrapper, target):
         "verbatim": verbatim,
         "callKeywords": keywords,
         "callExprs": [(k, ast.unparse(v)) for k, v in call_exprs],
+        "defaults": _defaults(fn),
     }
 
 
@@ -175,7 +189,9 @@ def read_tables(repo: Path | None = None):
     out = {}
     for wrapper, target in (("minimize", "minimize"), ("minimize_scalar", "minimize_scalar")):
         t = table(tree, wrapper, target)
-        t["scipyParams"] = list(inspect.signature(getattr(spopt, target)).parameters)
+        sig = inspect.signature(getattr(spopt, target))
+        t["scipyParams"] = list(sig.parameters)
+        t["scipyDefaults"] = [(k, repr(p.default)) for k, p in sig.parameters.items() if p.default is not inspect.Parameter.empty]
         out[wrapper] = t
     out["gradMethodsCode"] = grad_methods(tree)
     try:
@@ -219,7 +235,9 @@ def render(tabs) -> str:
             f"    verbatim := {_p(t['verbatim'])}",
             f"    callKeywords := {_l(t['callKeywords'])}",
             f"    callExprs := {_p(t['callExprs'])}",
-            f"    scipyParams := {_l(t['scipyParams'])} }}",
+            f"    scipyParams := {_l(t['scipyParams'])}",
+            f"    defaults := {_p(t['defaults'])}",
+            f"    scipyDefaults := {_p(t['scipyDefaults'])} }}",
             "",
         ]
     out += [
@@ -237,6 +255,11 @@ def render(tabs) -> str:
         "    every keyword passed on exists in scipy (meaning: `Scico.Wrap.Kwargs.checkFn_sound`) -/",
         "theorem minimize_ok : checkFn minimize expectedVerbatimMinimize = true := by decide",
         "theorem minimizeScalar_ok : checkFn minimizeScalar expectedVerbatimScalar = true := by decide",
+        "",
+        "/-- omitted pass-through parameters mean what they mean in scipy: the defaults agree (except `minimize(method=)`,",
+        "    meaning: `Scico.Wrap.Kwargs.checkDefaults_sound`) -/",
+        "theorem minimizeDefaults_ok : checkDefaults minimize allowedDefaultDiffMinimize = true := by decide",
+        "theorem minimizeScalarDefaults_ok : checkDefaults minimizeScalar [] = true := by decide",
         "",
         "end Scico.Generated.Kwargs",
         "",
